@@ -1,7 +1,254 @@
-//! `opt.*` and `impl.opt.*` operations (stub; filled in by the owner of this family).
-#![allow(unused_imports, dead_code)]
+//! `opt.*` operations: TCP options (TcpOptions::try_from_elements / try_from_slice,
+//! TcpOptionsIterator, TcpHeader::set_options / set_options_raw / options_iterator,
+//! TcpHeaderSlice::options_iterator, TcpSlice::options_iterator).
+//!
+//! Element list grammar (argument of `opt.encode`, also used for printing yielded elements):
+//!   `-` (empty list) or a comma separated list of
+//!   `nop` | `mss:<u16>` | `ws:<u8>` | `sackp` | `sack:<a>-<b>;<s>;<s>;<s>` (s = `_` or `<a>-<b>`, u32)
+//!   | `ts:<u32>:<u32>`
 use crate::util::*;
+use etherparse::{
+    TcpHeader, TcpHeaderSlice, TcpOptionElement, TcpOptionReadError, TcpOptionWriteError,
+    TcpOptions, TcpOptionsIterator, TcpSlice,
+};
 
-pub fn run(_op: &str, _a: &[&str]) -> Option<String> {
-    None
+fn parse_pair(s: &str) -> Option<(u32, u32)> {
+    let (a, b) = s.split_once('-')?;
+    Some((num(a)?, num(b)?))
+}
+
+fn parse_slot(s: &str) -> Option<Option<(u32, u32)>> {
+    if s == "_" {
+        Some(None)
+    } else {
+        Some(Some(parse_pair(s)?))
+    }
+}
+
+fn parse_elem(s: &str) -> Option<TcpOptionElement> {
+    use TcpOptionElement::*;
+    if s == "nop" {
+        return Some(Noop);
+    }
+    if s == "sackp" {
+        return Some(SelectiveAcknowledgementPermitted);
+    }
+    let (k, v) = s.split_once(':')?;
+    match k {
+        "mss" => Some(MaximumSegmentSize(num(v)?)),
+        "ws" => Some(WindowScale(num(v)?)),
+        "ts" => {
+            let (a, b) = v.split_once(':')?;
+            Some(Timestamp(num(a)?, num(b)?))
+        }
+        "sack" => {
+            let f: Vec<&str> = v.split(';').collect();
+            if f.len() != 4 {
+                return None;
+            }
+            Some(SelectiveAcknowledgement(
+                parse_pair(f[0])?,
+                [parse_slot(f[1])?, parse_slot(f[2])?, parse_slot(f[3])?],
+            ))
+        }
+        _ => None,
+    }
+}
+
+fn parse_elems(s: &str) -> Option<Vec<TcpOptionElement>> {
+    if s == "-" {
+        return Some(Vec::new());
+    }
+    s.split(',').map(parse_elem).collect()
+}
+
+fn show_slot(s: &Option<(u32, u32)>) -> String {
+    match s {
+        None => "_".to_string(),
+        Some((a, b)) => format!("{}-{}", a, b),
+    }
+}
+
+fn show_elem(e: &TcpOptionElement) -> String {
+    use TcpOptionElement::*;
+    match e {
+        Noop => "nop".to_string(),
+        MaximumSegmentSize(v) => format!("mss:{}", v),
+        WindowScale(v) => format!("ws:{}", v),
+        SelectiveAcknowledgementPermitted => "sackp".to_string(),
+        SelectiveAcknowledgement(f, r) => format!(
+            "sack:{}-{};{};{};{}",
+            f.0,
+            f.1,
+            show_slot(&r[0]),
+            show_slot(&r[1]),
+            show_slot(&r[2])
+        ),
+        Timestamp(a, b) => format!("ts:{}:{}", a, b),
+    }
+}
+
+fn show_err(e: &TcpOptionReadError) -> String {
+    use TcpOptionReadError::*;
+    match e {
+        UnexpectedEndOfSlice {
+            option_id,
+            expected_len,
+            actual_len,
+        } => format!(
+            "err(eos(id={},exp={},act={}))",
+            option_id, expected_len, actual_len
+        ),
+        UnexpectedSize { option_id, size } => format!("err(size(id={},size={}))", option_id, size),
+        UnknownId(id) => format!("err(unknown(id={}))", id),
+    }
+}
+
+fn show_item(i: &Result<TcpOptionElement, TcpOptionReadError>) -> String {
+    match i {
+        Ok(e) => show_elem(e),
+        Err(e) => show_err(e),
+    }
+}
+
+/// Drives the iterator until `None` (at most len+3 steps), then two more times.
+/// `items=[<item>@(off,len),…],stop=(off,len),after=[none,none]`; the windows are `rest()` after
+/// the call, relative to `base`.
+fn drive(base: &[u8], mut it: TcpOptionsIterator) -> (String, Vec<TcpOptionElement>) {
+    let mut items = Vec::new();
+    let mut oks = Vec::new();
+    let mut steps = 0usize;
+    let mut runaway = false;
+    loop {
+        if steps > base.len() + 3 {
+            runaway = true;
+            break;
+        }
+        steps += 1;
+        match it.next() {
+            None => break,
+            Some(i) => {
+                items.push(format!("{}@{}", show_item(&i), win(base, it.rest())));
+                if let Ok(e) = i {
+                    oks.push(e);
+                }
+            }
+        }
+    }
+    let mut s = format!("items=[{}]", items.join(","));
+    if runaway {
+        s.push_str(",runaway");
+        return (s, oks);
+    }
+    s.push_str(&format!(",stop={}", win(base, it.rest())));
+    let mut after = Vec::new();
+    for _ in 0..2 {
+        match it.next() {
+            None => after.push("none".to_string()),
+            Some(i) => after.push(format!("!revived({})@{}", show_item(&i), win(base, it.rest()))),
+        }
+    }
+    s.push_str(&format!(",after=[{}]", after.join(",")));
+    (s, oks)
+}
+
+fn show_opts(o: &TcpOptions) -> String {
+    format!(
+        "ok({},len={},doff={})",
+        to_hex(o.as_slice()),
+        o.len(),
+        o.data_offset()
+    )
+}
+
+fn show_werr(e: &TcpOptionWriteError) -> String {
+    match e {
+        TcpOptionWriteError::NotEnoughSpace(n) => format!("err(space={})", n),
+    }
+}
+
+/// everything observable about the options of a header after a successful setter
+fn show_header(h: &TcpHeader) -> String {
+    let opts = h.options.as_slice().to_vec();
+    let (it, _) = drive(h.options.as_slice(), h.options_iterator());
+    let bytes = h.to_bytes();
+    let sl = match TcpHeaderSlice::from_slice(&bytes) {
+        Ok(s) => format!(
+            "(opts={},{})",
+            to_hex(s.options()),
+            drive(s.options(), s.options_iterator()).0
+        ),
+        Err(e) => format!("(!err {:?})", e),
+    };
+    let ts = match TcpSlice::from_slice(&bytes) {
+        Ok(s) => format!(
+            "(opts={},{})",
+            to_hex(s.options()),
+            drive(s.options(), s.options_iterator()).0
+        ),
+        Err(e) => format!("(!err {:?})", e),
+    };
+    format!(
+        "ok(opts={},doff={},hlen={},wire={},it=({}),sl={},ts={})",
+        to_hex(&opts),
+        h.data_offset(),
+        h.header_len(),
+        if bytes.len() >= 20 {
+            to_hex(&bytes[20..])
+        } else {
+            "!short".to_string()
+        },
+        it,
+        sl,
+        ts
+    )
+}
+
+pub fn run(op: &str, a: &[&str]) -> Option<String> {
+    Some(match (op, a) {
+        ("opt.encode", [e]) => {
+            let es = parse_elems(e)?;
+            match TcpOptions::try_from_elements(&es) {
+                Ok(o) => show_opts(&o),
+                Err(e) => show_werr(&e),
+            }
+        }
+        ("opt.raw", [h]) => {
+            let b = hex(h)?;
+            match TcpOptions::try_from_slice(&b) {
+                Ok(o) => show_opts(&o),
+                Err(e) => show_werr(&e),
+            }
+        }
+        ("opt.iter", [h]) => {
+            let b = hex(h)?;
+            drive(&b, TcpOptionsIterator::from_slice(&b)).0
+        }
+        ("opt.reenc", [h]) => {
+            let b = hex(h)?;
+            let (_, oks) = drive(&b, TcpOptionsIterator::from_slice(&b));
+            let r = match TcpOptions::try_from_elements(&oks) {
+                Ok(o) => show_opts(&o),
+                Err(e) => show_werr(&e),
+            };
+            format!("n={},{}", oks.len(), r)
+        }
+        ("opt.hdr_elems", [e]) => {
+            let es = parse_elems(e)?;
+            let mut h = TcpHeader::default();
+            match h.set_options(&es) {
+                Ok(()) => show_header(&h),
+                Err(e) => show_werr(&e),
+            }
+        }
+        ("opt.hdr_raw", [x]) => {
+            let b = hex(x)?;
+            let mut h = TcpHeader::default();
+            match h.set_options_raw(&b) {
+                Ok(()) => show_header(&h),
+                Err(e) => show_werr(&e),
+            }
+        }
+        _ => return None,
+    })
 }
